@@ -58,7 +58,13 @@ def generate(ctx):
     mode = tape.weighted(MODES, "mode")
     nks = 1 + tape.draw(3, "nks")
     ks = [1 + tape.draw(fd["size"] + 2, "k") for _ in range(nks)]
-    return {"file": fd, "mode": mode, "ks": ks}
+    sc = {"file": fd, "mode": mode, "ks": ks, "prime": None}
+    # another caller in the same process reads the same bytes first through a sibling buffer type (the VCF buffer types
+    # share class-level caches keyed by the header text): process-global state is a scheduler decision
+    if fd["format"] in ("vcf", "vcfgt") and tape.boolean("prime", 1, 2):
+        sc["prime"] = {"buffer": "bionumpy.io.vcf_buffers.VCFBuffer2" if fd["format"] == "vcf" else "bionumpy.io.vcf_buffers.VCFBuffer",
+                       "lazy": tape.choice([False, True], "prime.lazy")}
+    return sc
 
 
 def execute(ctx, sc):
@@ -84,12 +90,22 @@ def execute(ctx, sc):
             iosim.compare_with_model(fmt, f.records, rows, where)
         except Violation as v:
             v.detail["file"] = f.brief()
+            v.detail["prime"] = sc.get("prime")
             raise
 
     with simfs.Mount(fs), core.quiet():
+        if sc.get("prime"):
+            pr = sc["prime"]
+            b = core.bnp()
+
+            def prime_read():
+                t = b.open(f.spec.path, buffer_type=iosim.resolve(pr["buffer"]), lazy=pr["lazy"]).read()
+                return core.plain(t.chromosome)
+            core.call(prime_read)       # its own outcome is not judged here
+            ctx.probe("primed_by_sibling_buffer_type")
         ref = iosim.read_whole(f.spec)
         if raised(ref):
-            raise Violation("value", fmt.name + ".whole_read_raises", {"file": f.brief(), "error": repr(ref)})
+            raise Violation("value", fmt.name + ".whole_read_raises", {"file": f.brief(), "error": repr(ref), "prime": sc.get("prime")})
         judge(ref, "whole", 1)
         ctx.steps += 1
         if mode == "raw_buffer":
